@@ -1,2 +1,125 @@
-(* C06 — placeholder while the model is being tied to the code. *)
-From FV Require Import C05.Model.
+(* C06 — Timer cancellation and bookkeeping are atomic and never crash the scheduler.
+   Only the property theorems (closed by exact lemmas, each followed by Print
+   Assumptions).  The machine is C05/Model.v: timer core (wheel or heap) + the refer map
+   and id counter under the mutex + the two request channels; a history is ANY list of
+   API calls (Start, Every, Cancel, Size, IsSched) and worker steps (HandleAdd,
+   HandleDel, Tick) — a worker step whose input is not ready is a no-op, so the lists are
+   exactly the orders in which the scheduler goroutine can pick among its ready inputs.
+   [reachable m]: m is the state after some history from a fresh wheel (at any position)
+   or a fresh heap. *)
+From Coq Require Import ZArith List Bool.
+From FV Require Import Generated.Consts C05.Model C05.Spec C05.Machine C06.Proofs.
+Import ListNotations.
+Open Scope Z_scope.
+
+(* "Cancelling a timer returns true exactly when the timer was still pending": the answer
+   is the membership of the id in the refer map — the same map Size counts (distinct ids)
+   and IsScheduled reports — at the linearisation point of the call. *)
+Theorem c06_cancel_iff_pending : forall m id,
+  reachable m ->
+  (exists b, snd (step m (Cancel id)) = OBool b true) <-> snd (step m (IsSched id)) = OFlag true.
+Proof. exact cancel_iff_sched. Qed.
+Print Assumptions c06_cancel_iff_pending.
+
+Theorem c06_size_counts_scheduled : forall m,
+  reachable m ->
+  snd (step m Size) = ONum (Z.of_nat (length (srefer m))) /\ NoDup (srefer m) /\
+  (forall id, snd (step m (IsSched id)) = OFlag true <-> In id (srefer m)).
+Proof. exact size_counts. Qed.
+Print Assumptions c06_size_counts_scheduled.
+
+(* "after a true return that timer is never delivered and is no longer counted or reported
+   as scheduled": for EVERY continuation of the history — whatever the order of the
+   worker's handling of the start request, of ticks and of other requests. *)
+Theorem c06_cancel_final : forall m id ops,
+  reachable m -> mem id (srefer m) = true ->
+  let m1 := fst (step m (Cancel id)) in
+  (forall l, In (ODeliv l) (snd (run m1 ops)) -> ~ In id (map fst l)) /\
+  ~ In id (srefer (fst (run m1 ops))) /\
+  snd (step (fst (run m1 ops)) (IsSched id)) = OFlag false /\
+  snd (step (fst (run m1 ops)) (Cancel id)) = OBool false false.
+Proof. exact cancel_final. Qed.
+Print Assumptions c06_cancel_final.
+
+(* the same for an id that left the map in any way (delivered one-shot, cancelled) *)
+Theorem c06_gone_forever : forall id ops m,
+  reachable m -> gone id m ->
+  gone id (fst (run m ops)) /\
+  (forall l, In (ODeliv l) (snd (run m ops)) -> ~ In id (map fst l)).
+Proof. exact gone_forever. Qed.
+Print Assumptions c06_gone_forever.
+
+(* what a tick delivers was scheduled when the tick began *)
+Theorem c06_delivered_were_scheduled : forall m l,
+  reachable m -> snd (step m Tick) = ODeliv l -> forall x, In x l -> In (fst x) (srefer m).
+Proof. exact tick_deliv_sched. Qed.
+Print Assumptions c06_delivered_were_scheduled.
+
+(* "cancelling an unknown, already delivered or already cancelled one-shot timer returns
+   false and disturbs no other timer": the state does not change at all. *)
+Theorem c06_cancel_false_inert : forall m id,
+  mem id (srefer m) = false -> step m (Cancel id) = (m, OBool false false).
+Proof. exact cancel_false_inert. Qed.
+Print Assumptions c06_cancel_false_inert.
+
+(* "no such ordering crashes or corrupts the scheduler": in every reachable state the
+   worker never links a node that is linked already (the panic of bucket.addNode / the
+   corruption of the heap's index bookkeeping), and no two nodes share an id. *)
+Theorem c06_no_crash : forall m n q,
+  reachable m -> spadd m = n :: q ->
+  ~ In (nid n) (map nid (core_content (score m))) /\ ~ In (nid n) (map nid q) /\
+  NoDup (map nid (core_content (score m))).
+Proof. exact no_double_link. Qed.
+Print Assumptions c06_no_crash.
+
+(* "timer ids handed out are unique among pending timers" — and never reused at all. *)
+Theorem c06_ids_unique : forall m d,
+  reachable m ->
+  exists b id, snd (step m (Start d)) = OId b id /\ id = snext m + 1 /\
+               ~ In id (srefer m) /\ ~ In id (all_ids m) /\ ~ In id (spdel m) /\
+               NoDup (srefer (fst (step m (Start d)))).
+Proof. exact start_fresh. Qed.
+Print Assumptions c06_ids_unique.
+
+Theorem c06_ids_unique_every : forall m p,
+  reachable m ->
+  exists b id, snd (step m (Every p)) = OId b id /\ id = snext m + 1 /\
+               ~ In id (srefer m) /\ ~ In id (all_ids m) /\ ~ In id (spdel m) /\
+               NoDup (srefer (fst (step m (Every p)))).
+Proof. exact every_fresh. Qed.
+Print Assumptions c06_ids_unique_every.
+
+(* "no such ordering stalls the scheduler": whenever a request is pending the worker's arm
+   for it is enabled and consumes it, the ticker arm is always enabled; no step waits for
+   another (the API calls' critical sections are single steps: the request is sent after
+   the mutex is released). *)
+Theorem c06_no_stall : forall m,
+  (spadd m <> [] -> snd (step m HandleAdd) = OFlag true) /\
+  (spdel m <> [] -> snd (step m HandleDel) = OFlag true) /\
+  (exists l, snd (step m Tick) = ODeliv l).
+Proof. exact worker_enabled. Qed.
+Print Assumptions c06_no_stall.
+
+Theorem c06_requests_consumed : forall m,
+  length (spadd (fst (step m HandleAdd))) = pred (length (spadd m)) /\
+  length (spdel (fst (step m HandleDel))) = pred (length (spdel m)).
+Proof. exact requests_consumed. Qed.
+Print Assumptions c06_requests_consumed.
+
+(* non-vacuity: the histories that crashed the unrepaired code, computed by the model.
+   [Start; Cancel; HandleDel; HandleAdd; ticks]: cancel overtakes its own start.
+   [Start 1; HandleAdd; Cancel; Tick; HandleDel]: cancel meets the expiry. *)
+Example c06_example_overtake :
+  snd (run (init_heap 0) [Start 5; Cancel 1; HandleDel; HandleAdd; Pass 9; Tick; Size; Cancel 1])
+  = [OId false 1; OBool false true; OFlag true; OFlag true; ONone; ODeliv []; ONum 0; OBool false false].
+Proof. vm_compute. reflexivity. Qed.
+
+Example c06_example_expiry_race :
+  snd (run (init_wheel 1000 0) [Start 1; Start 1; HandleAdd; HandleAdd; Cancel 1; Pass 1; Tick; HandleDel; Size])
+  = [OId false 1; OId false 2; OFlag true; OFlag true; OBool false true; ONone; ODeliv [(2, 1)]; OFlag true; ONum 0].
+Proof. vm_compute. reflexivity. Qed.
+
+Example c06_example_reachable :
+  reachable (fst (run (init_wheel 1000 0) [Start 1; HandleAdd])) /\
+  mem 1 (srefer (fst (run (init_wheel 1000 0) [Start 1; HandleAdd]))) = true.
+Proof. split; [constructor; discriminate|reflexivity]. Qed.
